@@ -7,7 +7,7 @@ use serde_json::json;
 fn alphabet() -> Vec<Action> {
     let mut a = Vec::new();
     for id in [1u32, 2] {
-        for bind in [Bind::Reuse, Bind::A, Bind::B, Bind::C, Bind::D, Bind::E] {
+        for bind in [Bind::Reuse, Bind::A, Bind::B, Bind::C, Bind::D, Bind::E, Bind::N] {
             for null_first in [false, true] {
                 a.push(Action::Exec { id, bind, null_first, shim_ignores: 0 });
             }
@@ -60,7 +60,7 @@ pub fn build(quick: bool) -> Check {
     Check {
         id: "C16",
         level: "model_checking",
-        rule: format!("two prepared statements of 2 parameters; histories over {} actions: EXECUTE(id 1|2, reuse | bind LONG | TINY UNSIGNED | VAR_STRING | BIGINT UNSIGNED | LONG UNSIGNED (same type code, other signedness; values have the top bit set), first parameter NULL or not), executions whose parameters the shim does not look at or of which it reads only the first, long data pending for the second parameter, re-PREPARE. Values are position- and step-dependent so that decoding with another statement's or an older type table, or from a shifted offset, gives a different value. Full tree to depth {} (thorough: depth 6 over a 15-action core) plus BFS over model states with two witnesses. Plus 4..300 statements each with its own table, all reused afterwards, and 4 statements under 160..3000 mixed executions. Oracle: types and values seen by the shim equal the model's (last table bound for that statement).", alpha.len(), if quick {4} else {5}),
+        rule: format!("two prepared statements of 2 parameters; histories over {} actions: EXECUTE(id 1|2, reuse | bind LONG | TINY UNSIGNED | VAR_STRING | BIGINT UNSIGNED | LONG UNSIGNED (same type code, other signedness; values have the top bit set) | MYSQL_TYPE_NULL, first parameter NULL or not), executions whose parameters the shim does not look at or of which it reads only the first, long data pending for the second parameter, re-PREPARE. Values are position- and step-dependent so that decoding with another statement's or an older type table, or from a shifted offset, gives a different value. Full tree to depth {} (thorough: depth 6 over a 15-action core) plus BFS over model states with two witnesses. Plus 4..300 statements each with its own table, all reused afterwards, and 4 statements under 160..3000 mixed executions. Oracle: types and values seen by the shim equal the model's (last table bound for that statement).", alpha.len(), if quick {4} else {5}),
         assumptions: vec!["reusing types when none were ever bound ends the history (protocol violation by the client)".into()],
         bounds: json!({"tree_depth": if quick {4} else {5}, "core_tree_depth": if quick {0} else {6}, "alphabet": alpha.len()}),
         exhaustive: true,
